@@ -36,7 +36,10 @@ import (
 //	S                 no reply, but the link stays alive: from the moment the message arrives the
 //	                  reader sends a KEEPALIVE every quarter of the client's timeout (every 20 ms for
 //	                  a client without one), waiting for each acknowledgement
-//	L:<cb>:<mb>:<st>  like S, and after one and a half client timeouts (60 ms for a client without
+//	L<pct>:<cb>:<mb>:<st>  like S, and pct % of the client's timeout (of 40 ms for a client without one) after
+//	                  the message arrived the reader does send R:<cb>:<mb>:<st>: below 100 a slow answer in
+//	                  time; the answer line ends with l<ms>,… = the measured latencies of these answers
+//	L:<cb>:<mb>:<st>  = L150:…: like S, and after one and a half client timeouts (60 ms for a client without
 //	                  one) the reader does send R:<cb>:<mb>:<st> — too late for a client with a
 //	                  timeout, merely slow for one without
 //
@@ -163,6 +166,7 @@ type c06Peer struct {
 	timeout        time.Duration           // the client's timeout (0: none)
 	unanswered     int                     // negotiation messages received and (S, L: not yet) answered; under mu
 	kaAcked        chan struct{}           // one token per acknowledgement of a KEEPALIVE sent while a message is left unanswered
+	lat            []int                   // ms from a negotiation message's arrival to the client having read its delayed answer (L); under mu
 	quit           chan struct{}           // closed when the outcome of Connect has been observed: no more KEEPALIVEs in place of an answer
 	vg, vn, vl     int                     // header versions: greeting, during negotiation, afterwards (-1: echo / 1)
 	early          func()                  // starts the early caller (once)
@@ -205,7 +209,7 @@ func (p *c06Peer) put(ver, typ int, id uint32, payload []byte) {
 const c06Settle = 1500 * time.Microsecond
 
 func (p *c06Peer) react(f c06Frame, r string, respType int, versions bool) {
-	if r == "S" || strings.HasPrefix(r, "L:") {
+	if r == "S" || strings.HasPrefix(r, "L") {
 		p.leaveUnanswered(f, r, respType, versions)
 		return
 	}
@@ -263,10 +267,22 @@ func (p *c06Peer) leaveUnanswered(f c06Frame, r string, respType int, versions b
 	p.mu.Lock()
 	p.unanswered++
 	p.mu.Unlock()
-	period, delay := 20*time.Millisecond, 60*time.Millisecond
-	if p.timeout > 0 {
-		period, delay = p.timeout/4, p.timeout*3/2
+	// L<pct>:… = the answer goes out pct % of the client's timeout (of 40 ms for a client without one)
+	// after the message arrived; L:… = L150:…
+	pct, rest := 150, ""
+	if r != "S" {
+		i := strings.Index(r, ":")
+		if i > 1 {
+			pct, _ = strconv.Atoi(r[1:i])
+		}
+		rest = r[i:]
 	}
+	period, base := 20*time.Millisecond, 40*time.Millisecond
+	if p.timeout > 0 {
+		period, base = p.timeout/4, p.timeout
+	}
+	delay := base * time.Duration(pct) / 100
+	start := time.Now().Add(-c06Settle) // react runs c06Settle after the message was read
 	go func() {
 		tick := time.NewTicker(period)
 		defer tick.Stop()
@@ -285,7 +301,10 @@ func (p *c06Peer) leaveUnanswered(f c06Frame, r string, respType int, versions b
 				p.mu.Lock()
 				p.unanswered--
 				p.mu.Unlock()
-				p.react(f, "R"+r[1:], respType, versions)
+				p.react(f, "R"+rest, respType, versions)
+				p.mu.Lock()
+				p.lat = append(p.lat, int(time.Since(start)/time.Millisecond)) // the client has read the answer
+				p.mu.Unlock()
 				return
 			case <-tick.C:
 				if id++; id > 998 {
@@ -557,7 +576,7 @@ func c06Session(line string) string {
 	peer := &c06Peer{conn: pConn, r1: f[2], r2: f[3], closeOnSilence: closeOnSilence, k1: k1, k2: k2, d1: d1, d2: d2, vg: vg, vn: vn, vl: vl,
 		acks: make(chan c06Frame, 4), done: make(chan struct{}), appSeen: make(chan struct{}, 64),
 		timeout: timeout, kaAcked: make(chan struct{}, 8), quit: make(chan struct{})}
-	silent := func(r string) bool { return r == "S" || strings.HasPrefix(r, "L:") }
+	silent := func(r string) bool { return r == "S" || strings.HasPrefix(r, "L") }
 	quiet := silent(f[2]) || silent(f[3]) // a session in which a negotiation message may be left unanswered
 
 	opts := []ClientOpt{WithVersion(VersionNum(cmax)), WithLogger(nil)}
@@ -764,7 +783,16 @@ afterTraffic:
 	}
 	// Connect has returned or the client is closed and both loops have lost their connection
 	cver := int(client.version)
-	return fmt.Sprintf("%s %s %d %s %s %s %s %s %s %d h%d", sid, outcome, cverNeg, c06Frames(before),
+	peer.mu.Lock()
+	lat := "l"
+	for i, ms := range peer.lat {
+		if i > 0 {
+			lat += ","
+		}
+		lat += strconv.Itoa(ms)
+	}
+	peer.mu.Unlock()
+	return fmt.Sprintf("%s %s %d %s %s %s %s %s %s %d h%d "+lat, sid, outcome, cverNeg, c06Frames(before),
 		c06Frames(all[len(before):]), req1, req2, ack, early, cver, held)
 }
 
